@@ -102,6 +102,8 @@ def gen_struct(rng, idx, allow_nested=True):
             feats.append('recurse_option' if opt else 'recurse'); all_skipped = False
         elif kind == 'ordered':
             ty = rng.choice(['Vec<i64>', 'std::collections::LinkedList<u8>', 'std::collections::VecDeque<String>', 'Vec<(i64, bool)>'])
+            if tparams and rng.random() < 0.3:        # elements of a type parameter: legal once the parameter is declared 'static (without: known finding D12)
+                tp = rng.choice(tparams); ctx['used'].add(tp); ctx.setdefault('need_static', set()).add(tp); ty = f"Vec<{tp}>"; feats.append('ordered_over_type_param')
             attr = rng.choice(['#[difference(collection_strategy = "ordered_array_like")]', '#[difference(collection_strategy="ordered_array_like")]']) + '\n    '
             checks.append(f"        if r.{acc} != b.{acc} {{ return Err(format!(\"ordered field {fname}: {{:?}} != {{:?}}\", r.{acc}, b.{acc})); }}")
             feats.append('ordered'); all_skipped = False
@@ -144,7 +146,8 @@ def gen_struct(rng, idx, allow_nested=True):
     if lt2: gl.append("'" + lt2 + (": '" + lt if idx % 4 == 0 else ''))
     for j, t in enumerate(tparams):
         b = rng.choice(['Clone', 'Clone + PartialEq', 'std::fmt::Debug + Clone', 'PartialEq<' + t + '> + Clone'])
-        if bound_style == 'inline' or (bound_style == 'mixed' and j % 2 == 0): gl.append(f"{t}: {b}")
+        if t in ctx.get('need_static', ()): b = b + " + 'static"
+        if bound_style == 'inline' or (bound_style == 'mixed' and j % 2 == 0) or (t in ctx.get('need_static', ()) and bound_style == 'none'): gl.append(f"{t}: {b}")
         else:
             gl.append(t)
             if bound_style in ('where', 'mixed'): wl.append(f"{t}: {b}")
@@ -249,6 +252,14 @@ KNOWN_BAD = {
  'D5b': ("struct without fields", "#[derive(Debug, Clone, PartialEq, Difference)]\npub struct D { }\n"),
  'D6': ("`recurse` on a field whose type is a generic parameter (type alias emitted without generics)",
         "#[derive(Debug, Clone, PartialEq, Difference)]\npub struct Inner { pub x: i64 }\n#[derive(Debug, Clone, PartialEq, Difference)]\npub struct D<T: StructDiff + Clone + PartialEq + std::fmt::Debug> { #[difference(recurse)] pub a: T }\n"),
+ 'D6b': ("`recurse` on a field whose type mentions a type parameter of the struct (same root: alias without generics)",
+         "#[derive(Debug, Clone, PartialEq, Difference)]\npub struct Inner<T: Clone + PartialEq + std::fmt::Debug> { pub t: T }\n#[derive(Debug, Clone, PartialEq, Difference)]\npub struct D<T: Clone + PartialEq + std::fmt::Debug> { #[difference(recurse)] pub a: Inner<T> }\n"),
+ 'D6c': ("`recurse` on a field whose type mentions a lifetime of the struct (same root: alias without generics)",
+         "#[derive(Debug, Clone, PartialEq, Difference)]\npub struct Inner<'a> { pub s: std::borrow::Cow<'a, str> }\n#[derive(Debug, Clone, PartialEq, Difference)]\npub struct D<'a> { #[difference(recurse)] pub a: Inner<'a> }\n"),
+ 'D12': ("collection strategy over a type parameter that is not declared 'static (E0310: the generated apply goes through Box<dyn Iterator>)",
+         "#[derive(Debug, Clone, PartialEq, Difference)]\npub struct D<T: Clone + PartialEq + std::fmt::Debug> { #[difference(collection_strategy = \"ordered_array_like\")] pub v: Vec<T> }\n"),
+ 'D12b': ("collection strategy over elements that borrow (E0521: borrowed data escapes outside of method)",
+          "#[derive(Debug, Clone, PartialEq, Difference)]\npub struct D<'a> { #[difference(collection_strategy = \"ordered_array_like\")] pub v: Vec<std::borrow::Cow<'a, str>> }\n"),
  'D7': ("trailing comma inside a difference attribute", "#[derive(Debug, Clone, PartialEq, Difference)]\npub struct D { #[difference(skip,)] pub f0: i64, pub f1: i64 }\n"),
  'D8': ("generic parameter used only behind a reference inside another type", "#[derive(Debug, Clone, PartialEq, Difference)]\npub struct D<'a, T> { pub o: Option<&'a T> }\n"),
  'D9': ("bare reference field", "#[derive(Debug, Clone, PartialEq, Difference)]\npub struct D<'a> { pub o: &'a u8 }\n"),
